@@ -2,6 +2,7 @@
 
 E-PROD over (error decade x mantissa x value/error ratio x significance x flag); oracle in exact
 rational arithmetic (fractions.Fraction of the binary floats)."""
+import os
 import math
 import itertools
 from fractions import Fraction
@@ -10,7 +11,7 @@ from mc import engine
 from mc.engine import Acc
 
 LEVEL = 'exploration'
-RULE = ('full product: error = mantissa x 10^e (e=-15..15; 11 mantissas + the floats adjacent to each power of ten) x '
+RULE = ('full product: error = mantissa x 10^e (e=-15..15; 11 mantissas (thorough: every two-digit mantissa with its .05 rounding edges, 281 values) + the floats adjacent to each power of ten) x '
         'value = error x ratio (13 ratios incl. 0, +-1e-3 .. +-1e6) x significance 1..6 x flag {"", "+", " "}; Obs '
         '(covariance-defined and Monte-Carlo) and CObs; each string parsed back and compared in exact rational '
         'arithmetic; prior parser on every string, least_squares acceptance on the default-significance slice; scalar '
@@ -92,7 +93,10 @@ def check_string(s, v, dv, sig):
 
 def errs_for(e):
     base = 10.0 ** e
-    out = [m * base for m in MANT]
+    mant = MANT
+    if os.environ.get('VERIF_TIER') == 'thorough':     # every two-digit mantissa and the rounding edges around it
+        mant = sorted(set(MANT + [round(1.0 + 0.1 * i, 1) for i in range(90)] + [round(1.0 + 0.1 * i, 1) + 0.05 for i in range(90)] + [round(1.0 + 0.1 * i, 1) + 0.0499999 for i in range(90)]))
+    out = [m * base for m in mant]
     out += [float(np.nextafter(base, 0)), base, float(np.nextafter(base, np.inf))]
     return out
 
